@@ -14,7 +14,7 @@ for x in 'AB':
     for f in ('patch.diff', 'demo.py', 'notes.md'):
         if os.path.exists(src + '/' + f):
             shutil.copy(src + '/' + f, dst + '/' + f)
-    meta = {'id': '%s-%s' % (rid, x), 'breaks_property': pid, 'round': {'R': 2, 'S': 3, 'T': 4, 'U': 5, 'V': 6, 'W': 7, 'X': 8, 'Y': 9}.get(rid[0], 2),
+    meta = {'id': '%s-%s' % (rid, x), 'breaks_property': pid, 'round': {'R': 2, 'S': 3, 'T': 4, 'U': 5, 'V': 6, 'W': 7, 'X': 8, 'Y': 9, 'Z': 10}.get(rid[0], 2),
             'source': 'independent sub-agent given only the property text, an area of the code base and a scratch worktree',
             'confirmation': {k: c.get(k) for k in ('applies', 'demo_without', 'demo_with', 'fast_suite', 'fast_suite_rc',
                                                    'dataset_failed', 'dataset_ok')}}
